@@ -52,7 +52,9 @@ def run_variant(v):
         if err:
             return v, 'stale', err, ''
         evid = os.path.join(tmp, 'evidence')
-        env = dict(os.environ, AM_REPO=dst, AM_EVID=evid, AM_CACHE=os.path.join(tmp, 'cache'), AM_NO_WITNESS='1', AM_NO_SELFTEST='1')
+        env = dict(os.environ, AM_REPO=dst, AM_EVID=evid, AM_CACHE=os.path.join(tmp, 'cache'), AM_NO_SELFTEST='1')
+        if not v.get('witness'):
+            env['AM_NO_WITNESS'] = '1'
         # a behaviour-preserving variant must keep EVERY property silent, a break variant only needs its own check
         target = 'all' if v['expect'] == 'silent' else v['prop']
         p = subprocess.run([os.path.join(VERIF, 'check'), target, '--tier', 'quick'], env=env,
